@@ -188,7 +188,7 @@ CHECKS = {
                 "must leave the same state as the unfaulted run; a call that an interference made fail for real may be answered with success only "
                 "where the design tolerates it (adopt/release of a vanished pod, identical revision already there, conflict-retried updates); the safety monitors of C03/C04/C05/C07/C10/C12 hold on the faulted reconcile and "
                 "on every reconcile of the recovery; the fair closing schedule reaches a fixed point equal (ordinals, readiness, owners, revisions "
-                "at or above the partition, status, claims) to that of the unfaulted twin. Non-trivial = the fault hits at or after the first write "
+                "at or above the partition, status, claims; for transient faults also every stored ControllerRevision with its owner, selector labels and upgrade marker) to that of the unfaulted twin. Non-trivial = the fault hits at or after the first write "
                 "of a reconcile with >= 2 writes; distinct = distinct (state, position, kind, second fault)",
         "legs": [{"test": "TestC09", "quick": {"checks": 120}, "thorough": {"checks": 6400, "shards": 16}}],
         "floors": {"fault:crashAfter": 0.05, "target:create pods": 0.008, "target:update statefulsets": 0.02},
